@@ -20,6 +20,7 @@ import c16_cfgs
 import common as C
 import ffi
 import ffi_statics
+import sym_corpus
 
 LEVEL = "model_checking"
 BACK = os.path.join(C.SPEC, "back")
@@ -374,9 +375,27 @@ def validate(res, obs, name):
     res.add(libraries_validated_by_tlc=counts["libs"], bindings_validated_by_tlc=counts["bindings"], trace_states=r["distinct"])
 
 
+def report_sym(res, viol, drift, where):
+    """Verdicts of Trace_SymEvents.tla that belong to C16."""
+    for v in viol:
+        if v["what"] == "dangling":
+            shape = "keyword" if v["keyword"] else "plain"
+            res.violation("dangling:%s:%s:static%s" % ("cxx" if v["cxx"] else "c", shape, ":plink" if v["linkcb"] else ""), dict(v, source=where))
+    for dr in drift[:10]:
+        if dr["what"] in ("should-wrap-rule", "hook-vs-text"):
+            res.drift.append("%s sym event %s: %s %s ident=%s link=%s" % (where, dr["what"], dr["case"], dr["name"], dr["ident"], dr["link"]))
+
+
 def replay_libs(res, types, libs, name, counts):
     b = Batch(res, types, libs, name).run()
     validate(res, b.obs, name)
+    # T: the hook's own account of the decision (sym events of every library) against Wrappers.tla
+    entries = [{"id": l.name, "log": os.path.join(b.dir, l.name + ".ndjson"), "rs": os.path.join(b.dir, l.name + ".rs"),
+                "meta": {"target": "elf", "wrapstatic": True, "linkcb": l.opt["plink"], "cxx": l.cxx}} for l in b.libs]
+    viol, drift, c = sym_corpus.validate_logs(entries, "c16-sym-" + name)
+    report_sym(res, viol, drift, "generated")
+    counts["sym_events_validated"] = counts.get("sym_events_validated", 0) + c["sym"]
+    res.add(states=c["states"], transitions=c["states"])
     for k, v in b.counts.items():
         counts[k] = counts.get(k, 0) + v
     return b
@@ -407,6 +426,11 @@ def run(res, tier):
         f0 = merged[0]["fns"][0]
         res.sample_case({"sweep": tag, "behaviours": len(libs), "libraries": len(merged), "example": f0["cname"],
                          "predicted": {k: f0["pred"].get(k) for k in ("binding", "ident", "link", "wrapper", "sig", "code")}}, cap=8)
+    viol, drift, c = sym_corpus.run(res, tier, "C16")
+    report_sym(res, viol, drift, "corpus")
+    counts["sym_events_validated"] = counts.get("sym_events_validated", 0) + c["sym"]
+    counts["corpus_cases_validated"] = c["ran"]
+    res.add(states=c["states"], transitions=c["states"])
     nsim = 300 if thorough else 30
     types, libs = generate(res, "Gen_Statics_sim_t.cfg" if thorough else "Gen_Statics_sim_q.cfg", simulate=nsim, seed=C.seed(), name="sim")
     total += len(libs)
